@@ -31,7 +31,7 @@ RULE = ("A: all histories up to the tier's length over {sample_points(), sample_
 ASSUMPTIONS = ["the wrapped sampler of engine A/B is a ticket sampler returning Points([[ticket]]) so a fresh draw is observable",
                "next(sampler) hands out the held set without counting as an iteration (as implemented; not covered by the documentation)",
                "TLC 1.8 on PATH for engine B (if it is missing the evidence says so and engines A and C still decide)"]
-BOUNDS = {"quick": {"history": 8, "tlc_steps": 6, "n": [3, 4]}, "thorough": {"history": 11, "tlc_steps": 8, "n": [3, 4, 5]}}
+BOUNDS = {"quick": {"history": 8, "tlc_steps": 6, "n": [3, 4]}, "thorough": {"history": 13, "tlc_steps": 10, "n": [3, 4, 5]}}
 ITEM_LIMIT = {"quick": 900, "thorough": 3600}
 INTERVALS = [1, 2, 3, math.inf]
 HOME = os.environ.get("TPMC_HOME", "/verif")
